@@ -889,7 +889,8 @@ func (r *aRun) oracleC11(v *aView) {
 			if want := r.expandTag(r.tupleOf(sr)); tag != want {
 				r.note("C11", "wrong-tag", "wrong-tag", "%s: tag %q, the pipeline's tag is %q", where, tag, want)
 			}
-			if e := v.ref.eval(framedMessage(sr)); e.entry != nil {
+			// the serialized size is known for events that equal the reference of their record (a forwarded unfinished line is shorter)
+			if e := v.ref.eval(framedMessage(sr)); e.entry != nil && v.byStamp[st] != nil && sameEvent(&entries[i], e.entry, false) == "" {
 				total += e.size
 			}
 			ck := fmt.Sprint(sr.client)
